@@ -56,6 +56,23 @@ def run(tier):
         if p.returncode != 0:
             raise vp.Broken("cast_driver rc=%d %s" % (p.returncode, p.stderr[-300:]))
         events += vp.read_ndjson(tpath)
+    if drv:
+        # the casts and round trips again under guest ABIs whose pointers are 16-bit, or as wide as
+        # the host's while still being offsets from the sandbox base
+        fdrvs = vp.build_many([("cast_driver_lp64u", ["cast_driver.cpp"], dflags + ["-DABI_LP64U"], "-O1"),
+                               ("cast_driver_lp16", ["cast_driver.cpp"], dflags + ["-DABI_LP16"], "-O1")])
+        for nm, fd in sorted(fdrvs.items()):
+            fpath = os.path.join(wd, nm + ".ndjson")
+            p = vp.run([fd, fpath, str(seeds[0])], timeout=600)
+            if p.returncode < 0:
+                events += vp.read_ndjson(fpath)
+                events.append({"e": "crash", "signal": -p.returncode, "seed": seeds[0], "abi": nm})
+                continue
+            if p.returncode != 0:
+                raise vp.Broken("%s rc=%d %s" % (nm, p.returncode, p.stderr[-300:]))
+            for e in vp.read_ndjson(fpath):
+                e["abi"] = nm[len("cast_driver_"):]
+                events.append(e)
     vp.write_ndjson(allp, events)
     r = vp.tlc(os.path.join(vp.SPEC, "Trace_Casts.tla"), os.path.join(vp.SPEC, "Trace_Casts.cfg"), workers=1, timeout=600,
                env={"TRACE": allp})
@@ -65,7 +82,7 @@ def run(tier):
     chk.add_tlc("Trace_Casts", r, "constant-level evaluation of the Casts Contract on %d recorded events" % len(events))
     for b in res[0]["bad"]:
         chk.violation("event outside the C20 Contract: %s" % events[b - 1], events[b - 1])
-    combos = set((e["e"], e.get("cast", e.get("ty", e.get("what"))), e.get("from"), e.get("to"), e.get("src", e.get("form")))
+    combos = set((e["e"], e.get("abi"), e.get("cast", e.get("ty", e.get("what"))), e.get("from"), e.get("to"), e.get("src", e.get("form")))
                  for e in events)
     chk.count(evaluations=len(events), distinct=len(combos), traces=len(seeds))
     if drv and len(events) > len(pair_events) + 10:
@@ -78,7 +95,7 @@ def run(tier):
     chk.cov["scope"] = "14 (tainted form, opaque form) program pairs judged by compile verdict; opaque round trips for 15 primitive/pointer types, a registered struct and an array; opaque vs tainted " \
                        "values as callback results and invocation arguments (incl. values that must abort); 17 static, 9 " \
                        "reinterpret and 5 const cast pairs on tainted and tainted_volatile sources with boundary/random values " \
-                       "and null/first/interior/last pointers"
+                       "and null/first/interior/last pointers, under the wasm32, lp16 and lp64u guest ABIs"
     chk.assumptions += ["the accepted (source, target) pairs are a hand-listed family; rejected pairs are program forms (C01)",
                         "a pointer to offset 0 of the region is not storable in sandbox memory as a non-null pointer (its "
                         "representation is null's)"]
